@@ -7,6 +7,7 @@ local ids 1..4 (0 = no parent); full ids 1..5 (UUID(int=f)); small values v for 
 Event syntax (one token group, events of a history separated by ';'):
   F r l f p a v   ObjectUpdate            (region, local id, full id, parent id, avatar?, value)
   C r l f p a v   ObjectUpdateCompressed
+  D r l f p a v w ObjectUpdate whose two ObjectData blocks describe the same object (values v, then w)
   T r l v         ImprovedTerseObjectUpdate (value = Position.X)
   H r l c v       ObjectUpdateCached      (crc, update flags)
   P f v           ObjectProperties        (value = Name)
@@ -165,6 +166,13 @@ class Impl:
             return msg
         return self._wire(("F", r, l, f, p, a, v), build)
 
+    def msg_double(self, r, l, f, p, a, v, v2):
+        m1 = self.msg_full(r, l, f, p, a, v)
+        m2 = self.msg_full(r, l, f, p, a, v2)
+        m1["ObjectData"]      # force the lazy body parse before touching the block list
+        m1.blocks["ObjectData"].append(m2["ObjectData"][0])
+        return m1
+
     def msg_compressed(self, r, l, f, p, a, v):
         from hippolyzer.lib.base.datatypes import UUID, Vector3, Quaternion
         from hippolyzer.lib.base.message.message import Block, Message
@@ -231,6 +239,8 @@ class Impl:
         try:
             if k == "F":
                 w._handle_object_update(self.msg_full(*e[1:]))
+            elif k == "D":
+                w._handle_object_update(self.msg_double(*e[1:]))
             elif k == "C":
                 w._handle_object_update_compressed(self.msg_compressed(*e[1:]))
             elif k == "T":
@@ -399,13 +409,10 @@ class Spec:
         """The statement's assumption: no local id given to two live objects, no parent cycle."""
         k = e[0]
         if self.strict:
-            if k in ("F", "C") and e[1] not in self.tracked:
+            if k in ("F", "C", "D") and e[1] not in self.tracked:
                 return False          # class "untracked-region": update naming a region that is not tracked
-            if k == "K" and self.at(e[1], e[2]) is None and any(
-                    o["r"] == e[1] and o["p"] == e[2] and o["a"] for o in self.live.values()):
-                return False          # class "avatar-orphan": kill of an unknown local id that has avatar orphans
-        if k in ("F", "C"):
-            _, r, l, f, p, a, v = e
+        if k in ("F", "C", "D"):
+            _, r, l, f, p, a, v = e[:7]
             g = self.at(r, l)
             if g is not None and g != f:
                 return False
@@ -438,8 +445,8 @@ class Spec:
 
     def step(self, e):
         k = e[0]
-        if k in ("F", "C"):
-            _, r, l, f, p, a, v = e
+        if k in ("F", "C", "D"):
+            _, r, l, f, p, a, v = e[:7]
             if f in self.live:
                 self.live[f].update(r=r, l=l, p=p, a=bool(a))
             elif r in self.tracked:
@@ -511,7 +518,7 @@ def check_futures(impl, e):
             return "pending requests are cancelled on region teardown", "future %d.%d%s" % (r, l, kd)
         if k == "K" and r == e[1] and l == e[2]:
             return "pending requests are cancelled on kill", "future %d.%d%s" % (r, l, kd)
-        if k in ("F", "C") and kd == "U" and r == e[1] and l == e[2] and impl.world._region_managers.get(REG[r]) is not None \
+        if k in ("F", "C", "D") and kd == "U" and r == e[1] and l == e[2] and impl.world._region_managers.get(REG[r]) is not None \
                 and impl.regions[r].objects.lookup_localid(l) is not None:
             return "pending object requests are resolved by the update", "future %d.%d%s" % (r, l, kd)
         # a pending request may only wait for something that is not tracked, or for a reply kind not yet received
@@ -570,17 +577,14 @@ def classify(hist):
     spec = Spec()
     for e in hist:
         k = e[0]
-        if k in ("F", "C") and e[3] in spec.live and e[1] not in spec.tracked:
+        if k in ("F", "C", "D") and e[3] in spec.live and e[1] not in spec.tracked:
             return "object-moved-to-untracked-region"
-        if k == "K" and spec.at(e[1], e[2]) is None and any(
-                o["r"] == e[1] and o["p"] == e[2] and o["a"] for o in spec.live.values()):
-            return "kill-unknown-parent-drops-avatar-orphans"
         spec.step(e)
     return None
 
 
 def rand_event(rng, regions, lids, fulls, vals=(1, 2)):
-    k = rng.choice("FFFFFCCCTHPKKKXRQSM")
+    k = rng.choice("FFFFFCCCDTHPKKKXRQSM")
     r = rng.choice(regions)
     r12 = rng.choice([x for x in regions if x in REGISTERED] or [1])
     l = rng.choice(lids)
@@ -590,6 +594,8 @@ def rand_event(rng, regions, lids, fulls, vals=(1, 2)):
     v = rng.choice(vals)
     if k in "FC":
         return (k, r, l, f, p, a, v)
+    if k == "D":
+        return (k, r, l, f, p, a, v, rng.choice(vals))
     if k == "T":
         return (k, r, l, v)
     if k == "H":
@@ -612,7 +618,7 @@ def rand_hist(rng, n, strict, regions=(1, 2, 3), lids=(1, 2, 3, 4), fulls=(1, 2,
     while len(h) < n and tries < 50 * n:
         tries += 1
         e = rand_event(rng, regions, lids, fulls)
-        if strict and e[0] in ("F", "C", "T", "H") and e[1] not in spec.tracked and rng.random() < 0.9:
+        if strict and e[0] in ("F", "C", "D", "T", "H") and e[1] not in spec.tracked and rng.random() < 0.9:
             continue
         if spec.input_ok(e):
             h.append(e)
@@ -678,7 +684,7 @@ def small_alphabet(scope):
                         ev.append(("F" if (l + f + p) % 2 else "C", r, l, f, p, 1 if f == 2 else 0, 1 + (r + p) % 2))
                 ev += [("K", r, l), ("T", r, l, 2), ("H", r, l, 1, 2), ("Q", r, l), ("S", r, l)]
             ev += [("X", r), ("R", r), ("M", r)]
-        ev += [("P", 1, 1), ("P", 2, 2), ("F", 3, 1, 1, 0, 0, 1), ("C", 3, 2, 2, 1, 1, 1)]
+        ev += [("P", 1, 1), ("P", 2, 2), ("F", 3, 1, 1, 0, 0, 1), ("C", 3, 2, 2, 1, 1, 1), ("D", 1, 1, 1, 0, 0, 1, 2)]
     return ev
 
 
@@ -833,7 +839,7 @@ def _correspond(ctx, loop):
         mo = mline.split(" | ")
         v, io = check_history(h, loop, want_obs=True)
         steps += len(io)
-        if any(e[0] in ("F", "C") and e[4] for e in h):
+        if any(e[0] in ("F", "C", "D") and e[4] for e in h):
             nontriv += 1
         for i, a in enumerate(io):
             b = mo[i] if i < len(mo) else "<none>"
